@@ -48,10 +48,12 @@ struct Config {
 };
 // shape 3 = shape 0 plus an OBSTACLE: a directory sits where the first rotated file of the first day would go, so that rotation's
 // rename fails without any injected fault (the sink must then keep appending; nothing may be lost)
-const char *SHAPE_NAME[] = { "app.log", "app", "a+b.log", "app.log" };
-const char *SHAPE_BASE[] = { "app", "app", "a+b", "app" };
-const char *SHAPE_SUFFIX[] = { "log", "", "log", "log" };
+// shape 4 = shape 0 with a directory where the first COMPRESSED file would go: the .gz cannot be created (the rotated file must then stay)
+const char *SHAPE_NAME[] = { "app.log", "app", "a+b.log", "app.log", "app.log" };
+const char *SHAPE_BASE[] = { "app", "app", "a+b", "app", "app" };
+const char *SHAPE_SUFFIX[] = { "log", "", "log", "log", "log" };
 const char *OBSTACLE = "app.2024-02-28.1.log";
+const char *OBSTACLE_GZ = "app.2024-02-28.1.log.gz";
 
 std::vector<std::string> decoysFor(int shape)
 {
@@ -59,7 +61,7 @@ std::vector<std::string> decoysFor(int shape)
     case 0: return { "app.2000-01-01.1.log.bak", "app.2000-01-01.1.logx", "xapp.2000-01-01.1.log", "app.2000-1-1.1.log", "app.2000-01-01.a.log",
                      "app2000-01-01.1.log", "other.2000-01-01.1.log", "app.log.2000-01-01.1", "app.2000-01-01.1", "app.2000-01-01.1.log.gz.tmp",
                      "app.2000-01-01.1.txt", "app.2000-01-01..log", "app.log.1" };
-    case 3: return { };
+    case 3: case 4: return { };
     case 1: return { "app.2000-01-01.1.log", "app.2000-01-01.1x", "xapp.2000-01-01.1", "app.2000-01-01", "app.2000-01-01.1.gz.bak", "app2000-01-01.1", "app.1" };
     default: return { "aab.2000-01-01.1.log", "a+b.2000-01-01.1.logx", "aa+b.2000-01-01.1.log", "ab.2000-01-01.1.log", "a+b.2000-01-01.1" };
     }
@@ -253,6 +255,7 @@ struct World {
             if (::stat((dir + "/" + n).c_str(), &st) != 0) putFile(dir + "/" + n, decoys[n]); // kept across histories while intact (see wipeKeeping)
         }
         if (c.shape == 3) mkdir((dir + "/" + OBSTACLE).c_str(), 0700);
+        if (c.shape == 4) mkdir((dir + "/" + OBSTACLE_GZ).c_str(), 0700);
         vdev::active = true;
         installMonitor();
         open();
